@@ -81,7 +81,7 @@ def verify_all(ctx, case):
 
 
 def run(ctx):
-    lw = setup(ctx)
+    lw = setup(ctx, warm=False)
     AnnotatedState = install(lw)
     State = lw.State
     from lightworks.sdk.utils import add_heralds_to_state, remove_heralds_from_state
